@@ -204,6 +204,14 @@ def stepSys (st : State) (toks : List String) : Option (Sys × String) :=
     match who w, la.toNat?, src.toNat?, len.toNat? with
     | some isB, some la, some src, some len => some (agentOp st isB (.inboundData s.now la (tagSrc la src) len (sl == "1")))
     | _, _, _, _ => none
+  -- `flood X la src len count`: `count` payload datagrams in a row (at most 4000), one digest at the end
+  | ["flood", w, la, src, len, count] =>
+    match who w, la.toNat?, src.toNat?, len.toNat?, count.toNat? with
+    | some isB, some la, some src, some len, some count =>
+      let ev : Ev := .inboundData s.now la (tagSrc la src) len false
+      let s' := (List.range (min count 4000)).foldl (fun (acc : Sys) _ => (acc.agentEv isB ev).1) s
+      some (s', render s' "-" [] [] n)
+    | _, _, _, _, _ => none
   | ["write", w, len, sl] =>
     match who w, len.toNat? with
     | some isB, some len => some (agentOp st isB (.write s.now len (sl == "1")))
